@@ -2,7 +2,8 @@
 import common as C
 import gen as G
 
-THEOREMS = []
+THEOREMS = ['unflatten_flatten', 'flatten_concatenates_in_order', 'missing_list_contributes_nothing',
+            'num_gives_lengths', 'local_index_counts_from_zero', 'offsets_are_running_sums']
 RULE = ('value-first random layouts x (num | localindex | flatten) x axis (positive, negative, some out of range); '
         'non-trivial = the input has >= 1 non-empty list and the operation succeeded; distinct by case text')
 ASSUMPTIONS = ['types containing unions are outside the specified fragment (skipped, counted)',
